@@ -10,6 +10,13 @@ structure NoFault (w : World) : Prop where
   ma : w.failMallocAll = false
   sa : w.failSendAll = false
 
+/-- no ALLOCATION fault is scheduled; transmits may be refused in any pattern -/
+structure NoMFault (w : World) : Prop where
+  m  : w.failMalloc = []
+  ma : w.failMallocAll = false
+
+theorem NoFault.noM {w : World} (h : NoFault w) : NoMFault w := ⟨h.m, h.ma⟩
+
 /-- same fault schedule -/
 def World.sameSched (a b : World) : Prop :=
   b.failMalloc = a.failMalloc ∧ b.failSend = a.failSend ∧ b.failMallocAll = a.failMallocAll ∧ b.failSendAll = a.failSendAll
@@ -27,6 +34,13 @@ theorem free_sched (w : World) (n : Nat) : w.sameSched (w.free n) := ⟨rfl, rfl
 theorem send_sched (w : World) : w.sameSched w.send.1 := ⟨rfl, rfl, rfl, rfl⟩
 theorem raw_sched (w : World) (n : Nat) : w.sameSched (w.rawAlloc n) := ⟨rfl, rfl, rfl, rfl⟩
 theorem sendFx_sched (c : Cfg) (w : World) (f : List Nat) : w.sameSched (sendFx c w f).1 := ⟨rfl, rfl, rfl, rfl⟩
+
+theorem nmf_of_sched {a b : World} (h : NoMFault a) (hs : a.sameSched b) : NoMFault b :=
+  ⟨hs.1.trans h.m, hs.2.2.1.trans h.ma⟩
+
+theorem malloc_nmf (w : World) (n : Nat) (h : NoMFault w) : (w.malloc n).2 = true := by
+  unfold World.malloc
+  simp [h.ma, h.m]
 
 theorem malloc_nf (w : World) (n : Nat) (h : NoFault w) : (w.malloc n).2 = true := by
   unfold World.malloc
